@@ -401,6 +401,13 @@ func (g *specGen) Generate() J {
 			"trace": J{"name": "X-Trace", "in": "header", "schema": J{"type": "string"}}}
 	}
 	if r.Chance(30) {
+		// a callback component, and a schema that only the callback's request body refers to
+		comps["callbacks"] = J{"onEvent": J{"{$request.body#/callbackUrl}": J{"post": J{
+			"requestBody": J{"content": J{"application/json": J{"schema": J{"$ref": "#/components/schemas/CallbackEvent"}}}},
+			"responses":   J{"200": J{"description": "ack"}}}}}}
+		comps["schemas"].(J)["CallbackEvent"] = J{"type": "object", "properties": J{"kind": J{"type": "string"}}}
+	}
+	if r.Chance(30) {
 		comps["requestBodies"] = J{"PetBody": J{"content": J{"application/json": J{"schema": g.ref()}}}}
 	}
 	if !g.o.NoSecurity && r.Chance(50) {
@@ -507,6 +514,10 @@ func (g *specGen) Generate() J {
 				op["responses"].(J)["401"] = J{"$ref": "#/components/responses/Denied"}
 				op["responses"].(J)["403"] = J{"$ref": "#/components/responses/Denied"}
 				g.count("op:same-component-response-twice")
+			}
+			if _, ok := comps["callbacks"]; ok && r.Chance(35) {
+				op["callbacks"] = J{"evt": J{"$ref": "#/components/callbacks/onEvent"}}
+				g.count("op:callback-component")
 			}
 			if _, ok := comps["securitySchemes"]; ok && r.Chance(40) {
 				switch r.Intn(3) {
